@@ -20,7 +20,7 @@ func h12CheckNode(e *Entry, ro bool, ns string, what string) {
 
 func H12() {
 	sc := hcGenerate(param("n"))
-	note(sc.texts[0] + sc.texts[1] + sc.texts[2] + sc.texts[3])
+	note(sc.texts[0] + sc.texts[1] + sc.texts[2] + sc.texts[3] + sc.texts[4])
 	ms, lerrs := hLoad(sc.texts...)
 	check(len(lerrs) == 0, "the generated modules parse")
 	if len(lerrs) > 0 {
@@ -37,7 +37,14 @@ func H12() {
 		ro := sc.hcExpectRO(k)
 		h12CheckNode(hcWalk(ms, lv.steps), ro, lv.ns, "level container")
 		idx := string([]byte{'1' + byte(k)})
-		h12CheckNode(hcWalk(ms, append(append([]string{}, lv.steps...), "l"+idx)), ro, lv.ns, "leaf")
+		xro := ro
+		switch lv.extraCfg {
+		case 1:
+			xro = false
+		case 2:
+			xro = true
+		}
+		h12CheckNode(hcWalk(ms, append(append([]string{}, lv.steps...), "l"+idx)), xro, lv.ns, "leaf / leaf-list / list next to the next level")
 		// the choice and case wrappers carry no config statement: they inherit from above
 		if lv.op == opChoiceCase || lv.op == opChoiceShort {
 			above := sc.hcExpectRO(k - 1)
